@@ -15,9 +15,10 @@ class Abort(Exception):
 class NeedExtra(Abort):
     """a call to a function of /repo that the unit does not list but whose body is in the dump (a helper extracted by a refactoring):
     the unit is lowered again with that function included (no contract: it is inlined into its callers)"""
-    def __init__(self, decl, msg):
+    def __init__(self, decl, msg, overlay=None):
         Abort.__init__(self, msg)
         self.decl = decl
+        self.overlay = overlay or {}     # the caller's per-function type / stub overlays: the helper sees the same instantiation
 
 
 BUILTIN = {
@@ -587,7 +588,7 @@ class Lower:
         c = self.ast.canon(tgt['id'])
         for n in self.ast.functions():
             if has_body(n) and (self.ast.canon(n['id']) == c or (self.ast.qname(n) == q and self.qt(n) == self.qt(tgt))):
-                raise NeedExtra(n, msg)
+                raise NeedExtra(n, msg, dict((k, self.cur_spec[k]) for k in ('types', 'stubs') if k in getattr(self, 'cur_spec', {})))
 
     def callee_name(self, did, ref=None):
         c = self.ast.canon(did)
@@ -2276,9 +2277,9 @@ def lower_unit(ast, unit, strip_loops=None):
         try:
             return _lower_unit_once(ast, unit, strip_loops, extra)
         except NeedExtra as e:
-            if any(x['id'] == e.decl['id'] for x in extra) or len(extra) >= 12:
+            if any(x[0]['id'] == e.decl['id'] for x in extra) or len(extra) >= 12:
                 raise Abort('%s: neither lowered nor stubbed (the helper could not be included automatically)' % e)
-            extra.append(e.decl)
+            extra.append((e.decl, e.overlay))
 
 
 def _lower_unit_once(ast, unit, strip_loops, extra):
@@ -2298,9 +2299,9 @@ def _lower_unit_once(ast, unit, strip_loops, extra):
         L.records[q] = found
         L.rec_cname[q] = 'struct ' + L.mangle(unit.RECORD_NAMES.get(q, q) if hasattr(unit, 'RECORD_NAMES') else q)
     sel = select_functions(ast, unit)
-    for i, d in enumerate(extra):
+    for i, (d, ov) in enumerate(extra):
         # helpers of /repo the unit does not list, called by listed functions (lower_unit above): included without a contract, i.e. inlined
-        sel.append((d, {'q': ast.qname(d), 'c': 'vs_auto%d_%s' % (i, L.mangle(ast.qname(d))), 'auto': True}))
+        sel.append((d, dict(ov, q=ast.qname(d), c='vs_auto%d_%s' % (i, L.mangle(ast.qname(d))), auto=True)))
     if strip_loops:
         # bounded search (tools/pipeline.py): the function's loop contracts are left out, its loops are unwound instead
         sel = [(d, dict((k, v) for k, v in w.items() if k != 'loops') if (strip_loops == '*' or L.fn_cname(d, w) in strip_loops) else w) for d, w in sel]
@@ -2363,7 +2364,7 @@ def _lower_unit_once(ast, unit, strip_loops, extra):
         L.may_throw = mt
     else:
         raise Abort('may_throw fixpoint did not converge')
-    for d in extra:
+    for d, _ov in extra:
         L.assumptions.add('helper %s is not listed in the unit: included automatically, without a contract (inlined into its callers)' % ast.qname(d))
     return L, funs
 
